@@ -113,6 +113,12 @@ func Harness_C07_other_with_delete_bit() {
 	verifSubBits |= types.ModeDelete
 	harnessC07Step(2, verifOpSetOther)
 }
+// One ordinary member changes the grant of another ordinary member (needs three members: the owner is
+// protected and former members / strangers are invitations).
+func Harness_C07_member_regrades_member() {
+	verifForceActor, verifForceTarget = 1, 2
+	harnessC07Step(3, verifOpSetOther)
+}
 func Harness_C07_step_3_sub()      { harnessC07Step(3, verifOpSub) }
 func Harness_C07_step_3_setself()  { harnessC07Step(3, verifOpSetSelf) }
 func Harness_C07_step_3_setother() { harnessC07Step(3, verifOpSetOther) }
